@@ -14,6 +14,7 @@ PROP = {
     "theorems": [
         "Multi.C18.message_typemap",
         "Multi.C18.pack_unpack_kth",
+        "Multi.C18.reachable_pack_unpack_kth",
         "Multi.C18.types_committed_and_freed_once",
         "Multi.C18.ofElements_spec",
         "Multi.Mpi.build_spec",
@@ -47,3 +48,30 @@ def nontrivial(prog_lines, answer_lines):
             except ValueError:
                 pass
     return False
+
+
+def _observable(lines):
+    """msg lines: the packed elements and the state of the datatype ledger (all freed exactly once, none leaked, no erroneous call), not
+    the sequence of MPI_Type_* calls nor the (count, datatype) split; unpack lines: the cells written and the ledger state"""
+    out = []
+    for l in lines:
+        parts = [p.strip() for p in l.split("|")]
+        keep = []
+        for p in parts:
+            w = p.split()
+            if not w:
+                continue
+            if w[0] == "ledger" and len(w) == 5:
+                keep.append("ledger balanced=%s leaked=%s errs=%s" % (w[1] == w[2], w[3], w[4]))
+            elif w[0] in ("pack", "unpack", "prog", "INTERNAL", "LAW-VIOLATION"):
+                keep.append(p)
+            elif w[0] == "msg":
+                keep.append(p if len(w) == 2 else "msg")      # "msg none" / "msg bad-size" whole; else drop buf/count (the pack shows what they denote)
+            elif parts.index(p) == 0:
+                keep.append(p)      # any other kind of answer line: compared whole
+        out.append(" | ".join(keep))
+    return out
+
+
+def property_fails(impl_lines, model_lines):
+    return _observable(impl_lines) != _observable(model_lines)
